@@ -117,6 +117,7 @@ class _BitsCfg(Contract):
 class ToBits(_BitsCfg):
     """x.to_bits(n): n boolean wires that recompose to x; rejects x outside [0,2^n)."""
     sprops = ("C02", "C03", "C16")
+    vprops = ("C05", "C16", "C03")       # declaring a value n-bit: its run-time rejection and its width are C03's too
     name = "pysnark.runtime:LinComb.to_bits"
 
     def setup(self, c, cfg):
